@@ -18,7 +18,7 @@ import ast
 
 from ..astx import assigned_names, atoms, call_name, dotted, expand, facts_at, last
 from ..cfg import CFG, Node, exprs_in_node
-from ..index import AnchorError, FuncNode, ancestors, parent, walk_shallow
+from ..index import AnchorError, ancestors, walk_shallow
 from ..selftest import Twin
 
 EXPLANATION = (
@@ -206,8 +206,6 @@ def _r1_r3(chk, m, fn) -> None:
         raise AnchorError("C29: debounced_sorted_prefix is no longer an async generator function")
     cfg = CFG(fn)
     buf = _bind_buffer(fn)
-    params = _params(fn)
-
     # merged-stream loops: async for <item> in <merge_generators(...)>
     merged_loops = []
     for s in walk_shallow(fn):
@@ -291,15 +289,16 @@ def _r1_r3(chk, m, fn) -> None:
                m=m, node=y, fn=fn, instance=f"passthrough:{mode}", reason=reason, path=_lines(p))
 
     # ------------------------------------------------------------ R3
-    key_param = "key" if "key" in params else None
-    if key_param is None:
-        raise AnchorError("C29.R3: debounced_sorted_prefix has no `key` parameter")
+    # the caller's key function: a parameter of the generator other than the stream and the two window lengths
+    key_params = {p.arg for p in fn.args.kwonlyargs + fn.args.args if "Callable" in (ast.unparse(p.annotation) if p.annotation is not None else "") or p.arg == "key"}
+    if not key_params:
+        raise AnchorError("C29.R3: debounced_sorted_prefix has no key-function parameter")
     for c in sort_calls:
         kv = next((k.value for k in c.keywords if k.arg == "key"), None)
         rev = next((k.value for k in c.keywords if k.arg == "reverse"), None)
-        ok = isinstance(kv, ast.Name) and kv.id == key_param and (rev is None or (isinstance(rev, ast.Constant) and not rev.value))
+        ok = isinstance(kv, ast.Name) and kv.id in key_params and (rev is None or (isinstance(rev, ast.Constant) and not rev.value))
         chk.ob("C29.R3", "the burst is sorted ascending by the caller's key", ok, m=m, node=c, fn=fn, instance="sort-key",
-               reason=f"sort call `{ast.unparse(c)[:80]}` does not use key={key_param} ascending")
+               reason=f"sort call `{ast.unparse(c)[:80]}` does not sort ascending by the caller's key function {sorted(key_params)}")
     for fl in flush_loops:
         it = fl.iter
         whole = (isinstance(it, ast.Name) and it.id == buf) or (isinstance(it, ast.Call) and call_name(it) == "sorted" and it.args and dotted(it.args[0]) == buf)
